@@ -1784,6 +1784,114 @@ def control_observe():
     return {"problems": problems} if problems else None
 
 
+def corrnt_observe():
+    """compute_correlations_nt / compute_correlations with the caller's own list of times: the list
+    and its elements stay what they were, and re-using the list on another grid equals a fresh list"""
+    import copy as _copy
+    import oqupy
+    from oqupy import operators as op
+    from . import oq
+    pt = oq.long_trivial_pt(8, dt=0.1) if hasattr(oq, "long_trivial_pt") else oq.identity_pt(8, dt=0.1)
+    sysm = oq.cheap_system()
+    ops = [op.sigma("x"), op.sigma("z")]
+
+    def make():
+        return [0.2, (0.2, 0.6)], [slice(1, 3), [2, 4, 5]], [0.3, 0.5]
+
+    def call(times, start):
+        r = oqupy.compute_correlations_nt(system=sysm, process_tensor=pt, operators=ops,
+                                          ops_times=times, ops_order=["left", "left"],
+                                          initial_state=op.spin_dm("y+"), start_time=start,
+                                          progress_type="silent")
+        return [np.array(t) for t in r[0]], np.array(r[1])
+    problems = []
+    for k in range(3):
+        times = make()[k]
+        elems = list(times)
+        ref = _copy.deepcopy(times)
+        call(times, 0.0)
+        if len(times) != len(elems) or any(a is not b for a, b in zip(times, elems)):
+            problems.append("ops_times %r: the caller's list holds other objects after the call: %r"
+                            % (ref, times))
+            continue
+        if repr(times) != repr(ref):
+            problems.append("ops_times %r changed to %r" % (ref, times))
+            continue
+        if k == 1:
+            continue            # step indices do not depend on the grid
+        t2, c2 = call(times, 0.1)
+        t3, c3 = call(make()[k], 0.1)
+        if not (all(np.array_equal(a, b) for a, b in zip(t2, t3)) and c2.shape == c3.shape
+                and np.allclose(c2, c3, rtol=1e-12, atol=1e-14, equal_nan=True)):
+            problems.append("ops_times %r re-used with start_time 0.1 differs from a fresh list" % (ref,))
+    ta, tb = 0.2, (0.2, 0.6)
+    r1 = oqupy.compute_correlations(system=sysm, process_tensor=pt, operator_a=ops[0], operator_b=ops[1],
+                                    times_a=ta, times_b=tb, initial_state=op.spin_dm("y+"),
+                                    progress_type="silent")
+    r2 = oqupy.compute_correlations(system=sysm, process_tensor=pt, operator_a=ops[0], operator_b=ops[1],
+                                    times_a=ta, times_b=tb, initial_state=op.spin_dm("y+"),
+                                    progress_type="silent")
+    if not np.allclose(np.array(r1[1]), np.array(r2[1]), rtol=1e-12, atol=1e-14, equal_nan=True):
+        problems.append("compute_correlations twice with the same arguments differs")
+    return {"problems": problems} if problems else None
+
+
+def filept_observe():
+    """FileProcessTensor: caps are a function of the tensors currently in the file"""
+    import os
+    import tempfile
+    import oqupy
+    from oqupy import operators as op
+    from . import oq
+    r = random.Random(5)
+    first = [0.3 * generic(r, (1, 2, 4, 4)) + np.eye(4).reshape(1, 1, 4, 4),
+             0.3 * generic(r, (2, 2, 4, 4)), 0.3 * generic(r, (2, 1, 4, 4))]
+    newer = 0.4 * generic(r, (2, 2, 4, 4))
+    tmp = tempfile.mkdtemp(prefix="c20_filept_")
+    problems = []
+
+    def build(name, tensors):
+        pt = oqupy.FileProcessTensor(mode="write", filename=os.path.join(tmp, name),
+                                     hilbert_space_dimension=2, dt=0.1)
+        for k, m in enumerate(tensors):
+            pt.set_mpo_tensor(k, np.array(m, dtype=complex))
+        return pt
+    a = b = None
+    try:
+        a = build("a.hdf5", first)
+        a.compute_caps()
+        a.set_mpo_tensor(1, newer)
+        a.compute_caps()
+        b = build("b.hdf5", [first[0], newer, first[2]])
+        b.compute_caps()
+        for k in range(4):
+            ca, cb = np.array(a.get_cap_tensor(k)), np.array(b.get_cap_tensor(k))
+            if ca.shape != cb.shape or not np.allclose(ca, cb, rtol=1e-12, atol=1e-14):
+                problems.append("cap %d after set_mpo_tensor(1, ..) + compute_caps() differs from a "
+                                "freshly built equal FileProcessTensor (%.6g vs %.6g)"
+                                % (k, abs(ca.ravel()[0]), abs(cb.ravel()[0])))
+                break
+        sysm = oq.cheap_system()
+        da = np.array(oqupy.compute_dynamics(system=sysm, initial_state=op.spin_dm("z+"),
+                                             process_tensor=a, progress_type="silent").states)
+        db = np.array(oqupy.compute_dynamics(system=sysm, initial_state=op.spin_dm("z+"),
+                                             process_tensor=b, progress_type="silent").states)
+        dev = float(np.max(np.abs(da - db)))
+        if not dev < 1e-10:
+            problems.append("compute_dynamics on the updated FileProcessTensor differs from the fresh "
+                            "one by %.3e" % dev)
+    finally:
+        for pt in (a, b):
+            try:
+                if pt is not None:
+                    pt.close()
+            except Exception:       # noqa: BLE001
+                pass
+        import shutil
+        shutil.rmtree(tmp, ignore_errors=True)
+    return {"problems": problems} if problems else None
+
+
 def reuse_objects_cases(res, tables):
     """chains and controls: real observations vs the verdict of the generated tables"""
     chain_sites = [a for a in tables["arrays"] if a["func"].split("#")[0] in
@@ -1814,6 +1922,18 @@ def reuse_objects_cases(res, tables):
     if bad is not None and getters_ok:
         res.disagree("Control on a second time grid: no getter keeps argument-dependent state "
                      "unkeyed, yet the real Control misbehaves", bad)
+    nt_sites = [a for a in tables["arrays"] if a["func"].split("#")[0] == "compute_correlations_nt"]
+    for name, fn, ok in (("compute_correlations_nt(ops_times)", corrnt_observe,
+                          bool(nt_sites) and all(a["safe"] for a in nt_sites)),
+                         ("FileProcessTensor.compute_caps after set_mpo_tensor", filept_observe, True)):
+        try:
+            bad = fn()
+        except Exception as e:      # noqa: BLE001
+            bad = {"problems": ["raises " + exc_kind(e)]}
+        res.count("reuse:" + name.split("(")[0])
+        res.case(name, True, {"op": name, "impl": json.dumps(bad)[:120], "model": "static ok=%s" % ok})
+        if bad is not None and ok:
+            res.disagree(name + " misbehaves", bad)
 
 
 # ---------------------------------------------------------------------------
@@ -1982,6 +2102,10 @@ def replay_case(payload):
         return bad
     if kind == "table":
         return replay_table_history(payload["history"])
+    if kind == "corrnt":
+        return corrnt_observe()
+    if kind == "filept":
+        return filept_observe()
     if kind == "chain":
         return chain_observe(payload["variant"])
     if kind == "control":
@@ -2205,13 +2329,30 @@ def search(res, rng=None):
                         "compute_dynamics (7 steps) on grid (dt=0.1, start=0) then (dt=0.05, start=0.1) "
                         "and in the other order, vs a fresh equal Control (exact / 1e-12)"})
 
-    for sec in (section_4, section_5, section_6, section_7, section_8, section_9, section_10,
+    def section_11():
+        for kind, what, fn, how in (
+                ("corrnt", "caller-list-rewritten:compute_correlations_nt(ops_times)", corrnt_observe,
+                 "ops_times lists [0.2, (0.2, 0.6)], [slice(1,3), [2,4,5]], [0.3, 0.5] on an 8-step "
+                 "trivial process tensor (dt 0.1): identity and repr of the list elements before/after, "
+                 "then the same list with start_time=0.1 vs a fresh list"),
+                ("filept", "stale-caps:FileProcessTensor.compute_caps after set_mpo_tensor", filept_observe,
+                 "FileProcessTensor(write): 3 random rank-4 tensors, compute_caps(), set_mpo_tensor(1, new), "
+                 "compute_caps(); caps and compute_dynamics vs a freshly written equal file")):
+            try:
+                bad = fn()
+            except Exception as e:      # noqa: BLE001
+                bad = {"problems": ["raises " + exc_kind(e)]}
+            res.count("search:" + kind)
+            if bad is not None:
+                add(kind, what, {"kind": kind, "observed": bad, "how": how})
+
+    for sec in (section_11, section_4, section_5, section_6, section_7, section_8, section_9, section_10,
                 section_0, section_1, section_2, section_3):
         try:
             sec()
         except Exception as e:      # noqa: BLE001
             res.notes.append("search: %s raised %s" % (sec.__name__, exc_kind(e)))
-    order = ["table", "pt", "returned", "tebd", "chain", "control", "bath-tempo", "handed-out-object-changes-the-bath", "copy-after-eval-follows-original", "original-follows-copy-after-eval",
+    order = ["corrnt", "filept", "table", "pt", "returned", "tebd", "chain", "control", "bath-tempo", "handed-out-object-changes-the-bath", "copy-after-eval-follows-original", "original-follows-copy-after-eval",
              "old-value-after-set", "bath-copy-follows-original", "layout",
              "copy-ignores-own-attribute", "reuse", "history"]
     while any(found.get(k) for k in order):
